@@ -21,6 +21,7 @@ import HedVerif.Driver.C17
 import HedVerif.Driver.C18
 import HedVerif.Driver.C19
 import HedVerif.Driver.C20
+import HedVerif.Driver.Closed
 open Lean HedVerif.Driver
 
 def handlers : List (String → Json → Option (Except String Json)) :=
@@ -43,7 +44,8 @@ def handlers : List (String → Json → Option (Except String Json)) :=
    HedVerif.Driver.C17.handle,
    HedVerif.Driver.C18.handle,
    HedVerif.Driver.C19.handle,
-   HedVerif.Driver.C20.handle]
+   HedVerif.Driver.C20.handle,
+   HedVerif.Driver.Closed.handle]
 
 /-- handlers that read or write the session state (installed vocabularies) -/
 def ioHandlers : List (String → Json → Option (IO (Except String Json))) :=
